@@ -3,6 +3,7 @@ import os
 
 from vlib import common as C
 from vlib import conc
+from vlib import memsearch
 
 RULES = ['wCall.timed', 'wCall.untimed', 'wCall.untimed.ret',
          'wRegLoad.empty', 'wRegLoad.full', 'wRegLoad.full.ret', 'wRegCasOk', 'wRegCasFail', 'wRegCasFail.ret',
@@ -16,6 +17,10 @@ RULES = ['wCall.timed', 'wCall.untimed', 'wCall.untimed.ret',
 # behaviours of the model the FIBER backend never shows (stale pre-check loads, spurious wake-ups)
 NOT_EXHIBITABLE = ['wRegLoad.empty.stale', 'wRegLoad.full.stale', 'wRstLoad.cb.stale', 'wRstLoad.result.stale',
                    'wAttLoad.empty.stale', 'wAttLoad.full.stale', 'wWake.spurious', 'wRegSpur.full.ret']
+
+
+MEM_FILES = ['include/yaclib/async/detail/wait_impl.hpp', 'src/algo/base_core.cpp', 'src/util/mutex_event.cpp',
+             'include/yaclib/util/detail/mutex_event.hpp', 'include/yaclib/util/detail/atomic_counter.hpp']
 
 
 def run(res, tier):
@@ -35,6 +40,11 @@ def run(res, tier):
         search_args=[['--thorough', '--mode', 'dfs', '--pb', '3', '--wb', '1', '--max-exec', '150000'],
                      ['--thorough', '--mode', 'random', '--random-runs', '20000']],
         unmodelled_ok=NOT_EXHIBITABLE)
+    # an obligation broke (e.g. a tie: a memory order was edited) and no schedule shows anything — the FIBER backend is
+    # sequentially consistent: search "what a producer did before Set is visible after Wait(fs...) returned" with the C04
+    # machinery restricted to the wait's files (role table + ThreadSanitizer scenario `wait_two_producers`: the producer
+    # whose data is read is not the one that completes last and wakes the waiter)
+    memsearch.refine_no_input(res, 'C11', tier, MEM_FILES, 'wait_two_producers')
     if tier == 'thorough':
         # the same scenarios under AddressSanitizer (stack-use-after-return on the waiter's stack event would show here);
         # only the monitors run, the debug build's extra assertion loads are not part of the model
@@ -54,4 +64,5 @@ def run(res, tier):
 
 
 def replay(path):
-    return conc.replay('C11', path)
+    r = memsearch.replay(path)
+    return conc.replay('C11', path) if r is None else r
